@@ -1564,6 +1564,7 @@ pub mod implementations {
 /// * `"\\n"` -> `"\n"`
 /// * `"\\r"` -> `"\r"`
 /// * `"\\t"` -> `"\t"`
+/// * `"\\0"` -> `"\0"`
 ///
 /// # Errors
 /// This function will error if its input is invalid.
@@ -1647,6 +1648,11 @@ pub fn split_string_v2(string: &str, multi_target: bool) -> Result<Box<[String]>
             }
             't' if escaping => {
                 buf.push('\t');
+                escaping = false;
+                continue;
+            }
+            '0' if escaping => {
+                buf.push('\0');
                 escaping = false;
                 continue;
             }
